@@ -1,5 +1,5 @@
 CONSTANTS Bases <- BasesAB  Filters <- FiltersPT  Paths <- PathsXY
-  MaxFl = 2  MaxHandles = 4  MaxColls = 2  MaxOps = 5  KeyIncludesFilters = FALSE
+  MaxFl = 2  MaxHandles = 4  MaxColls = 2  MaxOps = 5  KeyIncludesFilters = FALSE  Views <- NoViews
 SPECIFICATION Spec
 VIEW NoHist
 INVARIANT NoMismatch
